@@ -1381,44 +1381,38 @@ func (m *mergeQuery) Properties() queryProp {
 
 func getHashCode(n NodeNavigator) uint64 {
 	var sb bytes.Buffer
+	// The key is the position path of the node (the 1-based index among its
+	// siblings at every level up to the root) followed by its name. The path
+	// is written first and ends at the first '/', so that a name or value
+	// containing '-' and digits can never be read as part of it.
+	var name string
 	switch n.NodeType() {
 	case AttributeNode, TextNode, CommentNode:
-		sb.WriteString(n.LocalName())
-		sb.WriteByte('=')
-		sb.WriteString(n.Value())
 		// https://github.com/antchfx/htmlquery/issues/25
-		d := 1
-		for n.MoveToPrevious() {
-			d++
-		}
-		sb.WriteByte('-')
-		sb.WriteString(strconv.Itoa(d))
-		for n.MoveToParent() {
-			d = 1
-			for n.MoveToPrevious() {
-				d++
-			}
-			sb.WriteByte('-')
-			sb.WriteString(strconv.Itoa(d))
-		}
+		name = n.LocalName() + "=" + n.Value()
 	case ElementNode:
-		sb.WriteString(n.Prefix() + n.LocalName())
-		d := 1
+		name = n.Prefix() + n.LocalName()
+	default:
+		h := fnv.New64a()
+		h.Write(sb.Bytes())
+		return h.Sum64()
+	}
+	d := 1
+	for n.MoveToPrevious() {
+		d++
+	}
+	sb.WriteByte('-')
+	sb.WriteString(strconv.Itoa(d))
+	for n.MoveToParent() {
+		d = 1
 		for n.MoveToPrevious() {
 			d++
 		}
 		sb.WriteByte('-')
 		sb.WriteString(strconv.Itoa(d))
-
-		for n.MoveToParent() {
-			d = 1
-			for n.MoveToPrevious() {
-				d++
-			}
-			sb.WriteByte('-')
-			sb.WriteString(strconv.Itoa(d))
-		}
 	}
+	sb.WriteByte('/')
+	sb.WriteString(name)
 	h := fnv.New64a()
 	h.Write(sb.Bytes())
 	return h.Sum64()
